@@ -33,7 +33,7 @@ def plan_c15(seed: int) -> dict:
     n_specs = rng.choice([1, 1, 2, 2, 3])
     specs, inputs = [], {}
     for si in range(n_specs):
-        spec = gen.gen_spec(rng, plain_groups=True, max_groups=3, cheap=rng.random() < 0.7)
+        spec = gen.gen_spec(rng, plain_groups=True, max_groups=3, cheap=rng.random() < 0.7, misconfig=True)
         if si > 0 and rng.random() < 0.4:
             # a sibling configuration that shares the mutable default arguments
             spec["inst_metrics"] = None
@@ -161,7 +161,12 @@ def ref_spec(spec, root):
     ev.save_to_config(path)
     with open(path, encoding="utf8") as f:
         yaml_text = f.read()
-    keys = list(ev.resulting_metric_keys)
+    try:
+        keys = list(ev.resulting_metric_keys)
+    except AssertionError:
+        if not spec.get("misconfigured"):
+            raise
+        keys = None  # a misconfigured evaluator refuses to advertise keys
     return {"keys": keys, "yaml": yaml_text, "groups": list(ev.segmentation_class_groups_names)}
 
 
@@ -228,6 +233,15 @@ class Hist:
     def check_keys(self, e, where):
         ev, si, _ = self.evs[e]
         self.evs[e][2] = True
+        if self.spec_ref[si]["keys"] is None:
+            # misconfigured evaluator: the pristine one refuses too; whatever this one does is
+            # judged through the other evaluators of the history
+            try:
+                list(ev.resulting_metric_keys)
+                self.note("misconfigured_keys_answered")
+            except Exception:  # noqa: BLE001
+                self.note("misconfigured_keys_refused")
+            return True
         ks = list(ev.resulting_metric_keys)
         if ks != self.spec_ref[si]["keys"]:
             extra = [k for k in ks if k not in self.spec_ref[si]["keys"]]
@@ -349,6 +363,13 @@ class Hist:
                         continue
                     path = os.path.join(self.root, f"agg{len(self.aggs)}", "out.tsv")
                     os.makedirs(os.path.dirname(path), exist_ok=True)
+                    if self.spec_ref[self.evs[e][1]]["keys"] is None:
+                        try:
+                            agg_mod.Panoptica_Aggregator(self.evs[e][0], agg_mod.Path(path) if as_path else path, log_times=log_times)
+                            self.note("misconfigured_aggregator_built")
+                        except Exception:  # noqa: BLE001
+                            self.note("misconfigured_aggregator_refused")
+                        continue
                     a = agg_mod.Panoptica_Aggregator(self.evs[e][0], agg_mod.Path(path) if as_path else path, log_times=log_times)
                     self.aggs.append([a, e, path])
                     self.evs[e][2] = True
